@@ -180,7 +180,7 @@ def cReadDate (s : Str) : Option Int :=
 
 def mkCodec (tbl : List CStyle) : Codec :=
   { showAmt := cShowAmt tbl, showCost := cShowCost tbl, readAmt := cReadAmt, disp := cDisp tbl,
-    dom := fun _ => true, fullOk := isFullOk, showDate := cShowDate, readDate := cReadDate }
+    dom := fun _ => true, fullOk := isFullOk, showDate := cShowDate, readDate := cReadDate, dateDom := fun _ => true }
 
 /-! ### decoding the AST -/
 
@@ -317,7 +317,7 @@ def opReparse (args : List String) : String :=
           let eqNorm := bad.isEmpty
           let fix := xs.all (fun x => decide (renderXact c L (norm c L x) = renderXact c L x))
           -- the hypotheses of C06.parse_render / C06.render_fixpoint_partial, evaluated
-          let wf := xs.all (fun x => xactOk c.toAmtCodec x)
+          let wf := xs.all (fun x => xactOk c x)
           let pad := xs.any (fun x => trailingPad L x)
           "ok\t" ++ (Json.arr (rows.map Json.str).toArray).compress ++ "\t" ++ (if eqNorm then "1" else ",".intercalate bad) ++ "\t" ++ boolStr fix
             ++ "\t" ++ boolStr wf ++ "\t" ++ boolStr pad
